@@ -42,6 +42,10 @@ A failed condition is `unknown` until the native replayer exhibits a schedule: t
 pair of lines of the patching context manager (H12).  H9a and H9b were repaired in /repo (fix: commits); H12 still fails on
 /repo HEAD and is reproduced: recorded in known_findings.json with proposed_fixes/C15_3.diff.
 
+**Round 7 (deepening).**  Verified on the real bodies by symbolic execution (were assumed / dataflow-only): the key expansion behind
+the round-key cache (`expansion_contract`), the target-list provider of the char-map patcher (`provider_contract`), the permanent AES
+patch (`permanent_patch_contract`), the archive configuration setter (`config_contract`).  See ENGINE.md "C15 round 7".
+
 **Robustness (round 3).**  Obligations follow the data flow, not the text: stores, guards and foreign mutations are followed into
 private helpers (a helper's store is "after a miss" if every call site is; a helper's setattr acts for the function that names the
 patched object), bulk publications are read through comprehensions / staging dicts / helper returns, keys and dependencies of a
